@@ -93,6 +93,10 @@ class FieldTaint:
             if self.project_slots and any(f in self.project_slots and fl == "full" for (_, f, fl, _) in base):
                 # one attribute of a child aggregator (`self.denominator.entries`) is not the child
                 return frozenset((p, f, ("part" if (f in self.project_slots and fl == "full") else fl), z) for (p, f, fl, z) in base)
+            cps = getattr(self, "container_project_slots", None)
+            if cps and isinstance(e.value, (ast.Name, ast.Subscript)) and any(f in cps and fl == "full" for (_, f, fl, _) in base):
+                # one attribute of an ELEMENT of a child container (`v1.entries` for v1 in self.values) is not the child
+                return frozenset((p, f, ("part" if (f in cps and fl == "full") else fl), z) for (p, f, fl, z) in base)
             return base
         if isinstance(e, ast.Subscript):
             base = self.L(e.value, env)
